@@ -1225,6 +1225,27 @@ def register(S):
             return ctx.ret(some(es[-1]))
         raise Inconclusive("Vec::pop on a vector of unknown contents in %s" % ctx.fr.fn["path"])
 
+    @S.on("alloc::vec::Vec::<T, A>::truncate")
+    def vec_truncate(ctx):
+        """exact: a vector of L known elements truncated to an integer in [lo, hi] ends with one of finitely many lengths;
+        one successor per feasible length (k < L: the argument is k; L: the argument is >= L and nothing changes)"""
+        ref, n = ctx.args
+        v = ctx.deref(ref)
+        if isinstance(n, Choice):
+            n = ctx.ip.join_choice(n)
+        if not (isinstance(v, Opaque) and v.kind == "vec" and v.get("elems") is not None and isinstance(n, IntVal)):
+            raise Inconclusive("Vec::truncate on a vector of unknown contents in %s" % ctx.fr.fn["path"])
+        es = v.get("elems")
+        L = len(es)
+        ks = [k for k in range(L + 1) if (n.lo <= k <= n.hi if k < L else n.hi >= L)]
+        pairs = []
+        for i, k in enumerate(ks):
+            s2 = ctx.st if i == len(ks) - 1 else ctx.st.copy()
+            if k < L:
+                ctx.ip.write_loc(s2, ref.loc, v.set(elems=es[:k], n=k))
+            pairs.append((s2, UNIT))
+        return ctx.ret_states(pairs)
+
     @S.on("alloc::vec::Vec::<T, A>::clear", "alloc::string::String::clear")
     def vec_clear(ctx):
         ref = ctx.args[0]
